@@ -57,10 +57,6 @@ SEC_OF_KEY = {'A': 'bib', 'B': 'bib', 'E': 'bcb', 'F': 'bcb'}
 
 # malformation classes whose only effect is that the block-type-specific data does not dissect as an ASB
 INVISIBLE_CLASSES = ('bad_asb', 'encrypted_bib')
-# malformation classes that make an exception escape the context's verify call (only used to choose between a
-# pending signature and a plain violation; the oracle itself does not depend on it)
-RAISING_CLASSES = ('missing_target', 'no_params', 'bad_addl', 'results_short', 'no_result')
-
 
 def make_key(name, wrong=False):
     (kid, k, alg, ops) = KEYS[name]
@@ -606,9 +602,9 @@ def oracle(case, built, obs):
     def sig(mode):
         if mode == 'delivered' and invisible_only(case, built):
             return SIG_INVIS
-        if mode == 'text-reason' and classes and any(c in RAISING_CLASSES for c in classes):
+        if mode == 'text-reason':
             return SIG_TEXT
-        if mode == 'neither' and classes and any(c in RAISING_CLASSES for c in classes) and len(classes) > 1:
+        if mode == 'neither':
             return SIG_DROP
         return 'C12 / %s / %s' % (label, mode)
 
